@@ -4,7 +4,7 @@
    (C-bit) in their binary64 instance.  TridiagQR / DoubleShiftQR: models tied bit for bit,
    identities evaluated on the implementation; their global theorems are listed in DESIGN.md
    as not yet proved. *)
-From SV Require Import Ops LinAlg Givens HessQR.
+From SV Require Import Ops LinAlg Givens HessQR TridiagQR DoubleShift.
 From mathcomp Require Import all_ssreflect all_algebra.
 From SV Require Import OpsF GivensPf HessQRPf.
 Set Implicit Arguments. Unset Strict Implicit. Unset Printing Implicit Defensive.
@@ -83,3 +83,24 @@ move=> F; split.
 - rewrite /normalized /= andbT sqrrN !expr_div_n -mulrDl -!natrX -natrD.
   by rewrite divff // pnatr_eq0.
 Qed.
+
+(* TridiagQR::matrix_QtHQ: the 2x2 core of every step is the congruence G^T [x y; y z] G with G = [c s; -s c], for all inputs *)
+Theorem C08_tridiag_QtHQ_core : forall (F : rcfType) (c s x y z u1 u2 : F),
+  let '(nd, nl, nd1) := TridiagQR.qthq_core (OpsF F) c s x y z in
+  nd * u1 ^+ 2 + 2%:R * nl * u1 * u2 + nd1 * u2 ^+ 2 =
+  x * (c * u1 + s * u2) ^+ 2 + 2%:R * y * (c * u1 + s * u2) * (- s * u1 + c * u2) + z * (- s * u1 + c * u2) ^+ 2.
+Proof. move=> F c s x y z u1 u2; exact: qthq_core_similarity. Qed.
+Print Assumptions C08_tridiag_QtHQ_core.
+
+(* DoubleShiftQR: apply_PX / apply_XP act through hh3 (hh2) on triples (pairs) of entries; for a unit vector u the map is an
+   isometry and an involution, i.e. every reflector P = I - 2 u u' is orthogonal and symmetric *)
+Theorem C08_reflector_isometry : forall (F : rcfType) (u0 u1 u2 x0 x1 x2 y0 y1 y2 : F), u0 ^+ 2 + u1 ^+ 2 + u2 ^+ 2 = 1 ->
+  let '(a0, a1, a2) := DoubleShift.hh3 (OpsF F) u0 u1 u2 x0 x1 x2 in let '(b0, b1, b2) := DoubleShift.hh3 (OpsF F) u0 u1 u2 y0 y1 y2 in
+  a0 * b0 + a1 * b1 + a2 * b2 = x0 * y0 + x1 * y1 + x2 * y2.
+Proof. move=> F u0 u1 u2 x0 x1 x2 y0 y1 y2; exact: hh3_isometry. Qed.
+Print Assumptions C08_reflector_isometry.
+
+Theorem C08_reflector_involution : forall (F : rcfType) (u0 u1 u2 x0 x1 x2 : F), u0 ^+ 2 + u1 ^+ 2 + u2 ^+ 2 = 1 ->
+  let '(a0, a1, a2) := DoubleShift.hh3 (OpsF F) u0 u1 u2 x0 x1 x2 in DoubleShift.hh3 (OpsF F) u0 u1 u2 a0 a1 a2 = (x0, x1, x2).
+Proof. move=> F u0 u1 u2 x0 x1 x2; exact: hh3_involution. Qed.
+Print Assumptions C08_reflector_involution.
